@@ -388,6 +388,64 @@ func Run(dir, tier string, seed int64) error {
 			}
 		}
 	}
+	// ---- large, poorly compressible responses (long redirect URLs, big forms): still signed, still verifying
+	{
+		for _, alg := range []string{idp.RSASHA256, idp.RSASHA1} {
+			conf := idp.DefaultConf()
+			conf.IDPConfig.SignatureAlgorithm = alg
+			env, err := idp.NewEnv(idp.EnvConfig{Issuer: sso.IssuerURL, Conf: conf})
+			if err != nil {
+				return err
+			}
+			st := env.Storage
+			st.Register("app-1", sso.BaseSP(nil, true))
+			st.Apps["app-1"] = sso.SPEntity
+			respCert, _ := x509.ParseCertificate(st.RespKey.Certificate)
+			for _, size := range []int{2048, 16384, 65536} {
+				raw := make([]byte, size/2)
+				rng := uint32(size)
+				for i := range raw {
+					rng = rng*1664525 + 1013904223
+					raw[i] = byte(rng >> 24)
+				}
+				big := fmt.Sprintf("%x", raw)
+				st.Users["ubig"] = &idp.User{Email: "a@example.com", Username: "alice", UserID: "ubig", Custom: []idp.CustomAttr{{Name: "blob", Values: []string{big}}}}
+				for _, binding := range []string{idp.PostBinding, idp.RedirBinding} {
+					st.Requests["big"] = &idp.AuthReq{ID: "big", AppID: "app-1", RelayState: "rs", ACS: "https://sp.example/acs", Binding: binding, AuthReqID: "_r", UserID: "ubig", IsDone: true}
+					rep := env.Do(idp.ReqSpec{Method: http.MethodGet, Path: "/login", Query: []idp.Param{idp.Q("id", "big")}}.HTTP())
+					run.Res.Evaluations++
+					run.Count(fmt.Sprintf("large-response=%s/%d", rep.Kind, size))
+					d := map[string]interface{}{"attribute_bytes": size, "binding": binding, "algorithm": alg, "reply": rep.Kind}
+					if !strings.HasSuffix(rep.Status, ":Success") || rep.Msg == nil {
+						continue
+					}
+					switch rep.Kind {
+					case "saml-redirect":
+						if msg := verifyRedirect(rep.Location, "https://sp.example/acs", respCert, alg); msg != "" {
+							fail("redirect-signature-invalid", fmt.Sprintf("large response (%d attribute bytes): %s", size, msg), d)
+						}
+						id++
+					default:
+						doc := etree.NewDocument()
+						signed := false
+						if doc.ReadFromBytes(rep.Msg) == nil {
+							if a := doc.FindElement("//Assertion"); a != nil && a.SelectElement("Signature") != nil {
+								signed = true
+							}
+						}
+						if !signed {
+							fail("success-assertion-unsigned", fmt.Sprintf("a Success assertion with %d attribute bytes left the IdP without a signature (stored binding %s, delivered as %s)", size, binding, rep.Kind), d)
+							id++
+						} else if size <= 16384 {
+							checkEnveloped("post-response-large", rep.Msg, "Assertion", respCert, d)
+						} else {
+							id++
+						}
+					}
+				}
+			}
+		}
+	}
 	// ---- a storage that hands out a certificate and a key that do not belong together (e.g. a half-finished rotation): whatever
 	// is emitted with a signature must still verify under the certificate the IdP publishes -- or nothing signed is emitted
 	{
@@ -430,6 +488,50 @@ func Run(dir, tier string, seed int64) error {
 			checkEnveloped("metadata-mismatched-pair", rep.Body, "EntityDescriptor", metaCert, d())
 		}
 	}
-	run.Res.Rule = "18 values (each character Canonical XML escapes: & < > CR in text, & < double-quote TAB LF CR in attribute values; apostrophe, leading / trailing / double space, multi-byte and supplementary-plane code points, entity look-alikes, CDATA terminator, a URL with & in its query) placed in every string that reaches a signed artefact (user attributes and custom attribute names / formats / values, NameID, audience = SP entity ID, recipient = consumer URL, request ID, RelayState, organisation and contact data) x {rsa-sha256, rsa-sha1} x artefacts {POST-binding response assertion (full user record; record with a login name only), attribute-query response assertion (all attributes / one requested / none matching), signed metadata, Redirect-binding query signature for consumer URLs with and without a query}: each enveloped signature is validated with goxmldsig and the published certificate; the signed element (without its Signature) goes to Coq as a tree together with the signer's digest input (whose hash must equal the emitted DigestValue) and goxmldsig's exclusive canonical form; each redirect URL is verified by the SAML Bindings 3.4.4.1 procedure on its raw query and compared with the generated BuildRedirectQuery; stored binding {POST, Redirect} x consumer URL {set, empty} are probed for a Success assertion without signature; a storage handing out a certificate and a key of different pairs must not lead to an artefact whose signature fails under the published certificate. distinct = (artefact, value class, verdict)."
+	run.Res.Rule = "18 values (each character Canonical XML escapes: & < > CR in text, & < double-quote TAB LF CR in attribute values; apostrophe, leading / trailing / double space, multi-byte and supplementary-plane code points, entity look-alikes, CDATA terminator, a URL with & in its query) placed in every string that reaches a signed artefact (user attributes and custom attribute names / formats / values, NameID, audience = SP entity ID, recipient = consumer URL, request ID, RelayState, organisation and contact data) x {rsa-sha256, rsa-sha1} x artefacts {POST-binding response assertion (full user record; record with a login name only), attribute-query response assertion (all attributes / one requested / none matching), signed metadata, Redirect-binding query signature for consumer URLs with and without a query}: each enveloped signature is validated with goxmldsig and the published certificate; the signed element (without its Signature) goes to Coq as a tree together with the signer's digest input (whose hash must equal the emitted DigestValue) and goxmldsig's exclusive canonical form; each redirect URL is verified by the SAML Bindings 3.4.4.1 procedure on its raw query and compared with the generated BuildRedirectQuery; stored binding {POST, Redirect} x consumer URL {set, empty} are probed for a Success assertion without signature; responses carrying 2 / 16 / 64 kB of incompressible attribute data over both bindings must still be signed and verify; a storage handing out a certificate and a key of different pairs must not lead to an artefact whose signature fails under the published certificate. distinct = (artefact, value class, verdict)."
 	return run.Finish()
+}
+
+// verifyRedirect applies SAML Bindings 3.4.4.1 to the URL sent: the octets are rebuilt from the raw query values
+func verifyRedirect(loc, acs string, cert *x509.Certificate, alg string) string {
+	if len(loc) <= len(acs)+1 {
+		return "no query in the Location"
+	}
+	raw := map[string]string{}
+	for _, seg := range strings.Split(loc[len(acs)+1:], "&") {
+		if k, v, ok := strings.Cut(seg, "="); ok {
+			if _, dup := raw[k]; !dup {
+				raw[k] = v
+			}
+		}
+	}
+	if _, has := raw["Signature"]; !has {
+		return "no Signature parameter"
+	}
+	octets := "SAMLResponse=" + raw["SAMLResponse"]
+	if v, ok := raw["RelayState"]; ok {
+		octets += "&RelayState=" + v
+	}
+	octets += "&SigAlg=" + raw["SigAlg"]
+	sigAlg, _ := url.QueryUnescape(raw["SigAlg"])
+	sigB64, _ := url.QueryUnescape(raw["Signature"])
+	sig, err := base64.StdEncoding.DecodeString(sigB64)
+	if err != nil {
+		return "Signature is not base64"
+	}
+	if sigAlg != alg {
+		return fmt.Sprintf("SigAlg %q is not the configured %q", sigAlg, alg)
+	}
+	pub := cert.PublicKey.(*rsa.PublicKey)
+	if sigAlg == idp.RSASHA1 {
+		h := sha1.Sum([]byte(octets))
+		err = rsa.VerifyPKCS1v15(pub, crypto.SHA1, h[:], sig)
+	} else {
+		h := sha256.Sum256([]byte(octets))
+		err = rsa.VerifyPKCS1v15(pub, crypto.SHA256, h[:], sig)
+	}
+	if err != nil {
+		return err.Error()
+	}
+	return ""
 }
